@@ -5,6 +5,7 @@ func init() {
 		ID:    "C14",
 		Title: "Rendering is deterministic",
 		Rules: []string{
+			"R-SHARED(history): no package-level state is both written and read on render paths (pools, caches): otherwise what a call returns depends on the calls before it",
 			"R-MAPORDER: for every iteration over a Go map (range, reflect MapKeys) reachable from the render, load and registry roots, the loop body only performs per-key updates, commutative reductions and order-independent exits, or the keys are collected and sorted before use",
 			"R-NONDET: random, time and process sources are consulted only inside the builtins registered as shuffle and rand; no go statements or multi-way selects on render/load paths",
 		},
@@ -16,6 +17,8 @@ func init() {
 			fns := m.reachableFns(r.Render, r.Load, r.Registry)
 			m.RunMapOrder(s, "R-MAPORDER", fns)
 			m.RunNondet(s, "R-NONDET", fns)
+			// the same call gives the same result only if nothing a render leaves behind reaches a later one
+			m.RunSharedWrites(s, "R-SHARED", r.Render, "history")
 			s.RequireMin("R-MAPORDER", 8, "map iterations in object, ast, evaluator, token and the root package")
 		},
 	})
